@@ -26,11 +26,15 @@ def normalize(v):
     """
     Normalize the input vector
     """
-    norm = v.norm
-    nvals = norm.values
-    if norm.shape:
-        return v / np.where(nvals == 0, 1, nvals)
-    return v / (nvals or 1)
+    # Divide by the largest component first: the squares in the norm of a very long
+    # (or integer) vector would overflow, and those of a very short one underflow
+    big = np.abs(v.x.values)
+    for c in (v.y, v.z):
+        if c is not None:
+            big = np.maximum(big, np.abs(c.values))
+    v = v / np.where(big == 0, 1.0, big)
+    nvals = v.norm.values
+    return v / np.where(nvals == 0, 1.0, nvals)
 
 
 def _binary_op(op, lhs, rhs):
